@@ -337,6 +337,49 @@ pub fn run(ctx: &mut Ctx) {
         let iter_limit = [0usize, 1, 2, 5, 30][rng.below(5)];
         let cap = ctx.param("node_cap", 1500);
         let node_limit = [0usize, 5, 20, cap, cap][rng.below(5)];
+        // boundary limits: in a third of the cases the node limit is the node count the run has after one of its first
+        // iterations (or one more / one less), and the iteration limit is the number of iterations it needs (or one less)
+        let (mut iter_limit, mut node_limit) = (iter_limit, node_limit);
+        if rng.chance(1, 3) {
+            let (st, ix) = (start.clone(), idx.clone());
+            let counts = in_fresh_thread(move || {
+                intern_names();
+                for nm in ["i", "z", "y", "x", "o"] {
+                    let _ = Slot::named(nm);
+                }
+                let mut eg: EGraph<Main> = EGraph::default();
+                for t in &st {
+                    eg.add_expr(to_recexpr::<Main>(t));
+                }
+                let rws: Vec<Rewrite<Main>> = ix.iter().map(|i| mk_rule(&POOL[*i])).collect();
+                let mut v = vec![eg.total_number_of_nodes()];
+                for _ in 0..4 {
+                    if eg.total_number_of_nodes() > 300 || !apply_rewrites(&mut eg, &rws) {
+                        break;
+                    }
+                    v.push(eg.total_number_of_nodes());
+                }
+                v
+            })
+            .unwrap_or_default();
+            if !counts.is_empty() {
+                let c = counts[rng.below(counts.len())];
+                node_limit = match rng.below(3) {
+                    0 => c,
+                    1 => c + 1,
+                    _ => c.saturating_sub(1),
+                };
+                if rng.chance(1, 2) {
+                    iter_limit = match rng.below(3) {
+                        0 => counts.len(),
+                        1 => counts.len().saturating_sub(1),
+                        _ => counts.len() + 1,
+                    };
+                } else {
+                    iter_limit = 30;
+                }
+            }
+        }
         let fail_at = if rng.chance(1, 4) { Some(rng.below(3)) } else { None };
         let eqsat = rng.chance(1, 3);
         if rng.chance(1, 3) {
